@@ -368,8 +368,9 @@ func runTier(p *Prop, tier string) int {
 		for _, l := range strings.Split(j.out.String(), "\n") {
 			if i := strings.Index(l, "harness trouble (case discarded): "); i >= 0 {
 				m := l[i+len("harness trouble (case discarded): "):]
-				if len(m) > 200 {
-					m = m[:200]
+				m = strings.ReplaceAll(m, work, "$WORK")
+				if len(m) > 320 {
+					m = m[:320]
 				}
 				trouble[m]++
 			}
